@@ -216,6 +216,9 @@ func (d *Pegnetd) NullifyMintedTokens(ctx context.Context, tx *sql.Tx, height ui
 		fLog.WithFields(log.Fields{
 			"err": err,
 		}).Info("zeroing burn | balances retrieval failed")
+		// Without the balances nothing would be burned and the block would be
+		// committed as if it had been: fail the block so it is retried.
+		return err
 	}
 
 	for _, tokenSupply := range MintTotalSupplyMap {
@@ -576,6 +579,9 @@ func (d *Pegnetd) SyncBlock(ctx context.Context, tx *sql.Tx, height uint32) erro
 		err := d.DevelopersPayouts(tx, fLog, height, dblock.Timestamp, developersList)
 		if err != nil {
 			fLog.WithFields(log.Fields{"section": "devReward", "reason": "developer reward"}).Tracef("something wrong happend during dev payout execution")
+			// A failed payout leaves only some of the developers paid. The block must not
+			// be committed like that: fail it, so it is rolled back and retried.
+			return err
 		}
 	}
 
